@@ -151,6 +151,25 @@ void prefixes(const troot& root, const troot& croot, tidx... idx)
     }
 }
 
+template <class tin, class tout, size_t trank>
+void integral_case(const tensor_dims_t<trank>& dims, vt::Rng& rng, int64_t magnitude, const char* types)
+{
+    tensor_mem_t<tin, trank>  input(dims);
+    tensor_mem_t<tout, trank> output(dims);
+    std::vector<int64_t>      in, out;
+    for (tensor_size_t i = 0; i < input.size(); ++i)
+    {
+        input(i) = static_cast<tin>(std::is_unsigned_v<tin> ? rng.range(0, magnitude) : rng.range(-magnitude, magnitude));
+        in.push_back(static_cast<int64_t>(input(i)));
+    }
+    integral(input, output);
+    for (tensor_size_t i = 0; i < output.size(); ++i)
+    {
+        out.push_back(static_cast<int64_t>(output(i)));
+    }
+    vt::put(vt::J("Integral").s("types", types).a("d", vdims(dims)).a("input", in).a("output", out));
+}
+
 template <class tscalar, size_t trank>
 void shape_case(const tensor_dims_t<trank>& dims, vt::Rng& rng, bool exhaustive)
 {
@@ -236,23 +255,18 @@ void shape_case(const tensor_dims_t<trank>& dims, vt::Rng& rng, bool exhaustive)
             "copyOwns", root.size() == 0 || (copy.data() != root.data() && copy2.data() != root.data())).b("sameContents", same).b(
             "sameDims", map.dims() == dims && cmap.dims() == dims));
     }
-    // summed-area table on small integer values
+    // summed-area table: input scalars narrower than the output scalar, with prefix sums that do not fit the input type
     if (root.size() > 0 && root.size() <= 200)
     {
-        tensor_mem_t<int32_t, trank> input(dims);
-        tensor_mem_t<int64_t, trank> output(dims);
-        std::vector<int64_t>         in, out;
-        for (tensor_size_t i = 0; i < input.size(); ++i)
+        switch (rng.range(0, 5))
         {
-            input(i) = static_cast<int32_t>(rng.range(-9, 9));
-            in.push_back(input(i));
+        case 0: integral_case<int32_t, int64_t, trank>(dims, rng, 1000000, "int32->int64"); break;
+        case 1: integral_case<int8_t, int64_t, trank>(dims, rng, 100, "int8->int64"); break;
+        case 2: integral_case<uint8_t, int32_t, trank>(dims, rng, 250, "uint8->int32"); break;
+        case 3: integral_case<int16_t, double, trank>(dims, rng, 30000, "int16->double"); break;
+        case 4: integral_case<uint16_t, int64_t, trank>(dims, rng, 60000, "uint16->int64"); break;
+        default: integral_case<float, double, trank>(dims, rng, 1000, "float->double"); break;
         }
-        integral(input, output);
-        for (tensor_size_t i = 0; i < output.size(); ++i)
-        {
-            out.push_back(output(i));
-        }
-        vt::put(vt::J("Integral").a("d", vdims(dims)).a("input", in).a("output", out));
     }
 }
 
